@@ -4,22 +4,13 @@
 From NV Require Import Base.Util Base.Sexp Base.IntTy Base.FloatBits Base.Float Base.Expr
      Macro.Surface Macro.Ast Macro.Parse Macro.Validate Macro.Messages
      Sem.Guard Sem.Value Sem.Eval Sem.Conv Sem.Bytes Sem.ArbInt Sem.ArbStr Sem.ArbFloat Sem.Order Spec.GuardSpec Run.Lib Run.Decode.
+From NV.Unicode Require UnicodeData UStr.
 Local Open Scope string_scope.
-
-(* placeholders until the Unicode tables are wired in (Run/Unicode*.v) *)
-Definition ascii_ws (c : N) : bool := ((9 <=? c) && (c <=? 13) || (c =? 32))%N.
-Fixpoint drop_ws (s : list N) : list N :=
-  match s with c :: r => if ascii_ws c then drop_ws r else s | [] => [] end.
-Definition ascii_trim (s : list N) : list N := rev (drop_ws (rev (drop_ws s))).
-Definition ascii_lower (s : list N) : list N :=
-  map (fun c => if (65 <=? c)%N && (c <=? 90)%N then (c + 32)%N else c) s.
-Definition ascii_upper (s : list N) : list N :=
-  map (fun c => if (97 <=? c)%N && (c <=? 122)%N then (c - 32)%N else c) s.
 
 Definition the_lib (d : decl) : fnlib :=
   let is64 := match d_family d with FFloat b => b | _ => true end in
   {| l_san := san is64; l_pred := pred is64; l_cust := cust is64; l_regex := regex_match;
-     l_trim := ascii_trim; l_lower := ascii_lower; l_upper := ascii_upper |}.
+     l_trim := UStr.u_trim; l_lower := UStr.u_lower; l_upper := UStr.u_upper |}.
 
 Definition dec_opt_value (x : sexp) : option (option value) :=
   match x with
